@@ -185,6 +185,30 @@ theorem C11_enough_acceptors_full_fails : ¬ C11_enough_acceptors_Full := by
   rw [h] at this
   cases this
 
+/-- Puts issued one after the other on the same client: the client keeps nothing from one call
+that enters the next, so a sequence is modelled as the independent puts. -/
+def putSeq (l : List (Cfg × List Srv × List Nat)) : List (Option (Res × St)) :=
+  l.map fun x => put x.1 x.2.1 x.2.2
+
+/-- Each Put of a sequence is decided by its own services, answers and completion order alone —
+whatever the earlier Puts on that client were and whatever their services answered (503, errors,
+…). In particular a later Put whose services accept it succeeds although the same services refused
+an earlier one. (The correspondence check runs such sequences on one real `KeepClient`.) -/
+theorem C11_seq_independent (l : List (Cfg × List Srv × List Nat)) (i : Nat) (c : Cfg)
+    (sv : List Srv) (picks : List Nat) (h : l[i]? = some (c, sv, picks)) :
+    (putSeq l)[i]? = some (put c sv picks) ∧
+    ((∃ acc : Srv → Bool,
+        (∀ x k, acc x = true → (c.script x k).code = 200 ∧ 1 ≤ (c.script x k).rep) ∧
+        (∀ x k, (c.script x k).code = 200 → 0 ≤ (c.script x k).rep) ∧
+        c.want ≤ sv.countP acc) →
+      ∃ loc n s, (putSeq l)[i]? = some (some (.ok loc n, s))) := by
+  have h1 : (putSeq l)[i]? = some (put c sv picks) := by
+    simp [putSeq, List.getElem?_map, h]
+  refine ⟨h1, ?_⟩
+  rintro ⟨acc, hacc, hnn, hcount⟩
+  obtain ⟨loc, n, s, hp⟩ := C11_enough_acceptors_partial c sv picks acc hacc hnn hcount
+  exact ⟨loc, n, s, by rw [h1, hp]⟩
+
 /-- `putReplicas` always returns, after processing at most (1+Retries)·|sv| answers (and sending
 at most that many requests). -/
 theorem C11_terminates (c : Cfg) (sv : List Srv) (picks : List Nat) :
@@ -277,6 +301,10 @@ example : [0, 1].Nodup ∧ (put c2 [0, 1] [1, 0]).map (fun r => r.2.reqLog) =
 example : (load false [⟨['a'], ['h'], 1, false, "disk".toList, true⟩,
                        ⟨['b'], ['g'], 2, true, "proxy".toList, false⟩]).writable =
     [(['b'], "https://g:2".toList)] := by decide
+/-- `C11_seq_independent`: service 1 refuses the first put with 503 and accepts the second -/
+example : (putSeq [({ want := 1, rps := 1, retries := 0, script := fun _ _ => ⟨503, 1, []⟩ }, [0, 1], []),
+                   (c3, [0, 2, 1], [0, 0])]).map (fun r => r.map (·.1)) =
+    [some (.insufficient [] 0), some (.ok [66] 2)] := by decide
 example : putHR ['x'] 67108865 = .oversize ∧ putHR ['x'] 67108864 = .call ⟨['x'], 67108864, true⟩ := by
   decide
 
